@@ -335,14 +335,22 @@ def tx_interface(d, register=True):
     from txdbus import interface as ti
     args = [ti.Method(mn, si, so) for mn, si, so in d.methods]
     args += [ti.Signal(sn, ss) for sn, ss in d.signals]
-    for pn, ps, acc, em in d.props:
-        args.append(ti.Property(pn, ps, readable=acc in ('read', 'readwrite'),
-                                writeable=acc in ('write', 'readwrite'),
-                                emitsOnChange={'true': True, 'false': False,
-                                               'invalidates': 'invalidates'}[em]))
+    later = []
+    for i, (pn, ps, acc, em) in enumerate(d.props):
+        kw = {'readable': acc in ('read', 'readwrite'), 'writeable': acc in ('write', 'readwrite')}
+        if em != 'true' or i % 2 == 0:
+            kw['emitsOnChange'] = {'true': True, 'false': False, 'invalidates': 'invalidates'}[em]
+        # (else: the default mode, which is to announce changes)
+        p = ti.Property(pn, ps, **kw)
+        # some properties are handed to the constructor, others added to the interface later
+        (later if i % 3 == 1 else args).append(p)
     if register:
-        return ti.DBusInterface(d.name, *args)
-    return ti.DBusInterface(d.name, *args, noRegister=True)
+        iface = ti.DBusInterface(d.name, *args)
+    else:
+        iface = ti.DBusInterface(d.name, *args, noRegister=True)
+    for p in later:
+        iface.addProperty(p)
+    return iface
 
 
 def prop_value(ds, sig):
